@@ -18,7 +18,7 @@ func c17Cfg(tier string) c17.Config {
 		"advance",
 	}}
 	if tier == "thorough" {
-		c.Depth = 5
+		c.Depth = 7
 	}
 	return c
 }
